@@ -106,7 +106,9 @@ def _desc(o):
 
 def order_sweep_c02(seed=0, tier="quick", cov=None):
     out = []
-    dom = [(p, t, i) for p in (None, 99.5, 100.0, 100.5) for t in (0, 1, 2) for i in (0, 1, 2, 3)]
+    # prices of several magnitudes, including neighbours that differ only far behind the decimal point
+    prices = (None, 99.5, 100.0, 100.5, 5e9, 5e9 + 1.0, 30000.0, 30000.00001, 1e-7, 1.0000001e-7)
+    dom = [(p, t, i) for p in prices for t in (0, 1, 2) for i in (0, 1, 2, 3)]
     n = 0
     for side in (True, False):
         orders = [_mk(side, p, t, i) for p, t, i in dom]
